@@ -8,6 +8,12 @@
 // diamonds, orphans, RBF replacements, invalid transactions, mined blocks, reorganisations, ticks
 // (expiry with back-dated Lastseen, eviction at the size limit) and save/reload.
 //
+// Files: main.go (parent: budgets, child processes, death classification), harness.go (wiring,
+// delivery, submission paths, watchdog, reporting), gen.go (history steps / transaction families),
+// poison.go (families that reach recorded findings; 1 history in 5, second half only), walk.go (oracle).
+// Triage aids (environment): C12_HISTORIES, C12_STEPS, C12_FIRST=<first history index>,
+// C12_POISON=<kind|all> (poison families everywhere from step 1), C12_ONLY=<step kind>, C12_CPUPROFILE.
+//
 // Oracle: an invariant walker (walk.go) that recomputes everything from the exported maps of txpool,
 // the node's UTXO dump and the independent codec /verif/ref/reftx. txpool.MempoolCheck() is run as
 // auxiliary evidence only.
